@@ -225,6 +225,53 @@ func init() {
 				return true
 			})
 			c.Check(other == "", "R24f", key, br.Pos(), "`goto %s` is paid for from a finite budget: %s is stepped before the jump, tested against a bound with an error return, and not reset inside the labelled statement (found %q)", br.Label.Name, counter.Name(), other)
+			// each parameter starts with a full budget: the counter is (re)initialised inside the loop that
+			// encloses the labelled statement, before the label. A budget shared by all parameters makes a
+			// long argument list with several aliases fail with a spurious "alias loop" error.
+			var loopBody *ast.BlockStmt
+			for i := len(stack) - 1; i >= 0; i-- {
+				if stack[i] == ast.Node(ls) {
+					for j := i - 1; j >= 0 && loopBody == nil; j-- {
+						switch l := stack[j].(type) {
+						case *ast.ForStmt:
+							loopBody = l.Body
+						case *ast.RangeStmt:
+							loopBody = l.Body
+						}
+					}
+					break
+				}
+			}
+			if loopBody != nil {
+				fresh := false
+				for _, st := range loopBody.List {
+					if st.Pos() >= ls.Pos() {
+						break
+					}
+					switch d := st.(type) {
+					case *ast.AssignStmt:
+						for i, l := range d.Lhs {
+							if id, ok := unparen(l).(*ast.Ident); ok && info.ObjectOf(id) == counter && len(d.Rhs) == len(d.Lhs) {
+								if !mentions(info, d.Rhs[i], counter) { // a constant, or a bound such as len(args.Flags)
+									fresh = true
+								}
+							}
+						}
+					case *ast.DeclStmt:
+						ast.Inspect(d, func(x ast.Node) bool {
+							if vs, ok := x.(*ast.ValueSpec); ok {
+								for _, nm := range vs.Names {
+									if info.Defs[nm] == counter {
+										fresh = true
+									}
+								}
+							}
+							return true
+						})
+					}
+				}
+				c.Check(fresh, "R24f", key+":fresh-per-parameter", br.Pos(), "the budget %s is (re)initialised inside the parameter loop before `%s:` — otherwise the hops of earlier parameters use it up and a later alias is refused with a spurious loop error", counter.Name(), br.Label.Name)
+			}
 			return true
 		})
 		if n == 0 {
